@@ -135,7 +135,9 @@ def framing(run, n, maxseg=3, auth=None):
     return out
 
 
-def context(scn, line, k=14):
+def context(scn, line, k=14, full=False):
+    if full:      # for the replay file: everything but the chatter, so that a rejection that does not reproduce can still be read
+        return [e for e in scn[:line] if e["op"] not in ("gossip.out", "gossip.deliver", "conn.deadline")][-k:]
     keep = [e for e in scn[:line] if e["op"] not in ("log.consume", "log.get", "gossip.out", "gossip.deliver", "conn.deadline",
                                                       "ack.ack.call", "ack.ack.ret", "writer.done", "publish.done", "auth")]
     return keep[-k:]
@@ -235,7 +237,7 @@ def validate(run, prop, scns, tpath, verdict, max_rejections=4, chunk_events=400
                 scenario = small
         verdict.add(sig, "broker trace: event %d %s is not a step of the broker specification; preceding events: %s"
                     % (line, json.dumps(e), json.dumps(context(scn, line - 1))),
-                    dict({"kind": "broker", "scenario": scenario, "rejected": e, "trace": context(scn, line, 60)}, **extra))
+                    dict({"kind": "broker", "scenario": scenario, "rejected": e, "trace": context(scn, line, 150, full=True)}, **extra))
     return nev, nscn, validated, rejected, tstates
 
 
